@@ -30,7 +30,9 @@ type Tok struct {
 
 // Inl is an inline node. K: t(ext) em st(rong) del code link sb(soft break) math
 // br (bracketed literal: "[S]", or "[text of C][S]" - a reference-style link WITHOUT a definition, i.e. plain text)
-// and the escape class: esc(\c) ent(&name;) auto(<url>) hb(hard break).
+// and the escape class: esc(\c) ent(&name;) auto(<url>) hb(hard break);
+// bare (S written as it is: an address without angle brackets - www.host/path, http://host/path, user@host - that
+// GFM's extended autolinks turn into a link whose visible text is exactly S; without GFM it is ordinary text S).
 type Inl struct {
 	K string `json:"k"`
 	S string `json:"s,omitempty"` // text / code text / latex / url tail / escaped char / entity name
@@ -85,6 +87,11 @@ type Case struct {
 	// input (a Converter is reusable: README converts a string and a file with one, BatchConvert many files).
 	// The expected result is that of the judged input alone.
 	Warm []string `json:"warm,omitempty"`
+	// Prior (nil: the same as Opts): the options the Converter was constructed with and under which it converted the
+	// warm-up documents. It differs from Opts only in fields that NewConverter does not consume (tables, task lists,
+	// TOC, TOC level; GFM, footnotes and math select the parser's extensions at construction and stay equal). The
+	// options of a conversion are the ones passed to that call: the expected result is that of Opts.
+	Prior *Opts `json:"prior,omitempty"`
 	// fidelity: the canonical text is written with CRLF line endings / without the terminator of its last line
 	// (both are the same Markdown document: CommonMark 2.1 line endings)
 	CRLF  bool `json:"crlf,omitempty"`
@@ -193,6 +200,8 @@ func mdOne(x Inl) string {
 		return "&" + x.S + ";"
 	case "auto":
 		return "<" + x.S + ">"
+	case "bare":
+		return x.S
 	}
 	return ""
 }
@@ -545,7 +554,7 @@ func readInl(xs []Inl, f uint8) []ch {
 			out = append(out, strChars(x.S, f)...)
 		case "ent":
 			out = append(out, strChars(entities[x.S], f)...)
-		case "auto":
+		case "auto", "bare":
 			out = append(out, strChars(x.S, f)...)
 		}
 		out = append(out, ch{' ', 0}) // sb, hb and the separator between neighbours all read as white space
